@@ -21,6 +21,9 @@ for d in sorted(glob.glob(os.path.join(VERIF, 'seeded', '*'))):
     if m.get('out_of_scope'):
         first = 'not caught'
         now = 'none (judged outside the property)'
+    if m.get('still_missed'):
+        first = 'missed'
+        now = 'none yet (in scope; what the check lacks is in meta.json)'
     rows.append('| %s | %s | %s | %s | %s |' % (
         name, m.get('what', '').replace('|', '/'),
         m.get('needs', '').replace('|', '/'), first, now))
@@ -36,15 +39,17 @@ else:
                '\n<!-- /seedtable -->', s, flags=re.S)
 missed = sum(1 for r in rows if '| missed, then caught |' in r)
 oos = sum(1 for r in rows if '| not caught |' in r)
+still = sum(1 for r in rows if '| missed |' in r)
 summary = ('%d seeded changes have been confirmed so far (rounds of '
            'sub-agents, two changes each, per claimed property); %d were '
            'caught by the check as it stood when the change arrived, %d '
            'were missed and are caught since the check was strengthened, '
-           'and %d not caught because judged to fall outside '
-           'the property (reason in the table); the %d others are all '
+           '%d not caught because judged to fall outside '
+           'the property (reason in the table), and %d in scope and still '
+           'missed; the %d others are all '
            'caught by the current quick tier (`selftest/run_mutants.py`).'
-           % (len(rows), len(rows) - missed - oos, missed, oos,
-              len(rows) - oos))
+           % (len(rows), len(rows) - missed - oos - still, missed, oos,
+              still, len(rows) - oos - still))
 s = re.sub(r'<!-- seedsummary -->.*?<!-- /seedsummary -->',
            lambda _: '<!-- seedsummary -->\n' + summary +
            '\n<!-- /seedsummary -->', s, flags=re.S)
